@@ -34,8 +34,8 @@ func c15StopSets() []c15Stops {
 		c15Stops{{Offset: 0, Color: c(0, 0, 0, 0)}, {Offset: 0.125, Color: c(9, 9, 9, 9)}, {Offset: 0.25, Color: c(0, 0, 0, 0)}, {Offset: 0.375, Color: c(0xff, 0, 0, 0xff)},
 			{Offset: 0.5, Color: c(0, 0xff, 0, 0xff)}, {Offset: 0.625, Color: c(0, 0, 0xff, 0xff)}, {Offset: 0.75, Color: c(0x7f, 0x7f, 0x7f, 0x7f)}, {Offset: 1, Color: c(1, 1, 1, 1)}},
 	)
-	// two stops 2^-18 apart between ordinary ones (a hard edge), in the middle of the list
-	sets = append(sets, c15Stops{{Offset: 0.25, Color: c(0xff, 0, 0, 0xff)}, {Offset: 0.5, Color: c(0, 0xff, 0, 0xff)}, {Offset: 0.5 + 1.0/(1<<18), Color: c(0, 0, 0xff, 0xff)}, {Offset: 0.75, Color: c(0x20, 0x20, 0x20, 0x20)}})
+	// two stops 2^-21 apart between ordinary ones (a hard edge), in the middle of the list
+	sets = append(sets, c15Stops{{Offset: 0.25, Color: c(0xff, 0, 0, 0xff)}, {Offset: 0.5, Color: c(0, 0xff, 0, 0xff)}, {Offset: 0.5 + 1.0/(1<<21), Color: c(0, 0, 0xff, 0xff)}, {Offset: 0.75, Color: c(0x20, 0x20, 0x20, 0x20)}})
 	// equal end colours with other colours in between
 	sets = append(sets, c15Stops{{Offset: 0, Color: c(0xff, 0, 0, 0xff)}, {Offset: 0.5, Color: c(0, 0, 0xff, 0xff)}, {Offset: 1, Color: c(0xff, 0, 0, 0xff)}})
 	// every stop of one colour (still a gradient: with spread none nothing is painted outside [0,1])
@@ -86,7 +86,8 @@ var c15ExactMats = [][6]float32{
 	{0.015625, 0, 0, 0, 0.015625, 0},
 	{-0.25, 0.25, 3.5, 0.25, 0.25, -3.5},
 	{2, 0, -64, 0, 2, -64},
-	{1 << 62 * 4, 0, 0, 0, 1 << 62 * 4, 0}, // 2^64: raw offsets far beyond any integer type
+	{1 << 62 * 4, 0, 0, 0, 1 << 62 * 4, 0},            // 2^64: raw offsets far beyond any integer type
+	{1.0 / (1 << 32), 0, 0.25, 0, 1.0 / (1 << 32), 0}, // 2^-32: pixels billions away are inside [0,1]
 }
 
 var c15GenMats = [][6]float32{
@@ -153,7 +154,7 @@ func init() {
 	mc.Register(&mc.Check{
 		ID:    "C15",
 		Level: "exploration",
-		Rule: "engine P over (stops x spread x shape x matrix x map x pixel): 11 stop lists (2,2,3,4,3,2,8,4,3,2,58 stops; first>0, last<1, transparent, equal neighbours, stops 2^-10 apart) x 4 spreads x 2 shapes; exact family: 11 dyadic matrices (one with entries 2^64) x 3 power-of-two viewBox/rectangle maps x pixel sweeps landing exactly on integers, stop offsets, midpoints and +-1000 (compared at the discontinuities, exact equality at stops); " +
+		Rule: "engine P over (stops x spread x shape x matrix x map x pixel): 11 stop lists (2,2,3,4,3,2,8,4,3,2,58 stops; first>0, last<1, transparent, equal neighbours, stops 2^-10 apart) x 4 spreads x 2 shapes; exact family: 12 dyadic matrices (one with entries 2^64, one with 2^-32 and pixels up to 2^40) x 3 power-of-two viewBox/rectangle maps x pixel sweeps landing exactly on integers, stop offsets, midpoints and +-1000 (compared at the discontinuities, exact equality at stops); " +
 			"generic family: 10 (thorough 120: + 11 rotations x 5 scales x 2 translations, sheared) matrices x 12 maps x a 33x33 (thorough 129x129) pixel lattice; thorough adds 57 generated stop lists, one per stop count 2..58 (33x33 lattice) incl. negative coordinates (pixels within 1e-9 of a discontinuity of the active spread skipped and counted). The paint is obtained as a user gets it: register writes + gradient colour + full-rectangle path on a real Renderer, src image taken from Rasterizer.Draw; At(x,y) and the GradientConfig accessors are compared with the reference; a subset is rendered with raster/vec into an RGBA64 image. " +
 			"distinct = hash of (spread-mapped region, exactness, shape); non-trivial = pixel whose raw offset lies outside [0,1] or exactly on a stop",
 		Assumptions: []string{"|At - v| <= 1 of 65535 per channel (truncation vs rounding is not the property's subject)", "accessor matrix compared within 2^-40 (exact family) / 2^-21 (generic family: the renderer's scale is a float32) relative to the magnitude of the terms"},
@@ -225,13 +226,21 @@ var c15Layouts = []c15Layout{{12, 20, 8}, {60, 3, 56}, {5, 62, 2}}
 func c15Paint2(stops c15Stops, spread, shape int, m [6]float32, mp c15Map, ras *rec.Raster, lay c15Layout) (*rec.RCall, *render.Renderer) {
 	z := new(render.Renderer)
 	ras.ResetLog()
+	pal := ivg.DefaultPalette
+	fromPalette := lay.cbase == 60
+	if fromPalette {
+		// the stop colours are never written: they are the registers' initial content, the palette
+		for i, s := range stops {
+			pal[(int(lay.cbase)+i)&63] = s.Color
+		}
+	}
 	if lay.nbase%2 == 0 {
 		z.SetRasterizer(ras, mp.rect)
-		z.Reset(mp.vb, ivg.DefaultPalette)
+		z.Reset(mp.vb, pal)
 	} else {
 		// the target is configured twice: another rectangle first, the final one only after Reset
 		z.SetRasterizer(ras, image.Rect(3, 1, 3+mp.rect.Dy()+5, 1+mp.rect.Dx()+2))
-		z.Reset(mp.vb, ivg.DefaultPalette)
+		z.Reset(mp.vb, pal)
 		z.SetRasterizer(ras, mp.rect)
 	}
 	z.SetCSel(lay.cbase)
@@ -240,7 +249,9 @@ func c15Paint2(stops c15Stops, spread, shape int, m [6]float32, mp c15Map, ras *
 		z.SetNReg(uint8(6-i), false, m[i])
 	}
 	for _, s := range stops {
-		z.SetCReg(0, true, ivg.RGBAColor(s.Color))
+		if !fromPalette {
+			z.SetCReg(0, true, ivg.RGBAColor(s.Color))
+		}
 		z.SetNReg(0, true, float32(s.Offset))
 	}
 	z.SetCSel(lay.gsel)
@@ -268,7 +279,16 @@ func c15Check(w *mc.W, cs *c15Case) {
 	}
 	lay := c15Layouts[(cs.Mat+cs.Map)%len(c15Layouts)]
 	dr, z := c15Paint2(stops, cs.Spread, cs.Shape, m, mp, &ras, lay)
-	if dr == nil || dr.Paint.Kind != 2 {
+	oneColour := true
+	for _, s := range stops {
+		if s.Color != stops[0].Color {
+			oneColour = false
+		}
+	}
+	// every stop of one colour: a uniform paint is the same picture wherever the gradient paints
+	// at all; it is then judged by its pixels alone (no accessors, no repaints)
+	uniform := dr != nil && dr.Paint.Kind == 1 && oneColour
+	if dr == nil || (dr.Paint.Kind != 2 && !uniform) {
 		fail("no-gradient-paint", fmt.Sprintf("valid gradient was not handed to the rasteriser (%v)", dr), math.MinInt32, 0)
 		return
 	}
@@ -291,7 +311,7 @@ func c15Check(w *mc.W, cs *c15Case) {
 			}
 		}
 	}
-	if !okAcc {
+	if !okAcc && !uniform {
 		fail("accessors:stops", fmt.Sprintf("GradientConfig reports shape %d spread %d colors %v offsets %v", p.Shape, p.Spread, p.Colors, p.Offsets), math.MinInt32, 0)
 		return
 	}
@@ -315,7 +335,7 @@ func c15Check(w *mc.W, cs *c15Case) {
 	if cs.Shape == 0 {
 		rows = 1 // the bottom row is ignored for linear gradients
 	}
-	for i := 0; i < 3*rows; i++ {
+	for i := 0; i < 3*rows && !uniform; i++ {
 		if !(math.Abs(p.M[i]-want[i]) <= tolM*mag[i]+1e-300) {
 			fail("accessors:transform", fmt.Sprintf("Transform()[%d] = %g, composition of the viewBox-to-gradient matrix with the pixel-to-viewBox map gives %g", i, p.M[i], want[i]), math.MinInt32, 0)
 			return
@@ -327,7 +347,7 @@ func c15Check(w *mc.W, cs *c15Case) {
 		rstops[i] = ref.Stop{Offset: float64(float32(s.Offset)), Color: s.Color}
 	}
 	M := want
-	if !cs.Exact {
+	if !cs.Exact && !uniform {
 		M = p.M // validated above; avoids attributing the float32 scale rounding to At
 	}
 	// pixel sets
@@ -338,7 +358,7 @@ func c15Check(w *mc.W, cs *c15Case) {
 		for x := -40; x <= 200; x++ {
 			pxs = append(pxs, x)
 		}
-		pxs = append(pxs, -1000, 999, 1000, 8000, -8001, 123456)
+		pxs = append(pxs, -1000, 999, 1000, 8000, -8001, 123456, 1<<31, -(1 << 31), 3<<30, 1<<40)
 		pys = []int{0, 3, -4, 12, 1000}
 	} else {
 		for i := -8; i <= 24; i++ {
@@ -422,7 +442,7 @@ func c15Check(w *mc.W, cs *c15Case) {
 		w.Sample(map[string]any{"config": desc, "pixels": len(pxs) * len(pys), "transform": p.M})
 	}
 	// subset: render with raster/vec into an RGBA64 image and compare interior pixels
-	if cs.Mat == 0 && cs.PX == nil && mp.rect.Min == (image.Point{}) {
+	if cs.Mat == 0 && cs.PX == nil && mp.rect.Min == (image.Point{}) && !uniform {
 		dst := image.NewRGBA64(mp.rect)
 		vz := vec.NewRasterizer(dst)
 		vz.DrawOp = draw.Src
@@ -447,7 +467,7 @@ func c15Check(w *mc.W, cs *c15Case) {
 	}
 	// The same Renderer paints again after only registers changed: (2) the matrix registers,
 	// (3) one stop colour, (4) one stop offset. The gradient value in CREG[8] stays as it is.
-	if cs.PX == nil {
+	if cs.PX == nil && !uniform {
 		var m2 [6]float32
 		for i := range m2 {
 			m2[i] = m[i] * []float32{0.5, -2, 1, 0.25, 4, -1}[i]
